@@ -209,6 +209,13 @@ func (vc *FnVC) nonNil(ptr ssa.Value, s string, what string) {
 	if _, ok := ptr.(*ssa.FreeVar); ok {
 		return
 	}
+	// already established for this term on every path to here?
+	for _, b := range vc.nonNilAt[s] {
+		if vc.curBlock != nil && (b == vc.curBlock || b.Dominates(vc.curBlock)) {
+			return
+		}
+	}
+	vc.nonNilAt[s] = append(vc.nonNilAt[s], vc.curBlock)
 	vc.safety("nil("+what+")", not(eq(s, "0")))
 }
 
@@ -778,7 +785,7 @@ func (vc *FnVC) doConvert(x *ssa.Convert, st *State) {
 		lo, hi := intRange(tb)
 		n := vc.freshFor(x, st)
 		tr := "(fp.to_real (fp.roundToIntegral RTZ " + v.S + "))"
-		inRange := and("(<= "+intLit(lo)+".0 "+tr+")", "(<= "+tr+" "+intLit(hi)+".0)", not("(fp.isNaN "+v.S+")"), not("(fp.isInfinite "+v.S+")"))
+		inRange := and("(<= (to_real "+intLit(lo)+") "+tr+")", "(<= "+tr+" (to_real "+intLit(hi)+"))", not("(fp.isNaN "+v.S+")"), not("(fp.isInfinite "+v.S+")"))
 		vc.assume(implies(inRange, eq("(to_real "+n+")", tr)))
 	case fok && tok && fb.Info()&types.IsInteger != 0 && tb.Info()&types.IsString != 0:
 		// string(byte/rune): single byte below 0x80, UTF-8 otherwise (kept abstract)
@@ -1089,10 +1096,30 @@ func (vc *FnVC) seenCompFor(rg *ssa.Range) string {
 	return c
 }
 
+// posCompFor: ghost byte position of a range-over-string iterator.
+func (vc *FnVC) posCompFor(rg *ssa.Range) string {
+	c := "Pos$" + sanitize(rg.Name())
+	vc.regComp(c, sInt)
+	return c
+}
+
+// runePrefix: number of runes in s[:p] (p at a rune boundary), uninterpreted with unfolding
+// facts emitted by the string iterator.
+func (vc *FnVC) runePrefix(s, p string) string {
+	vc.enc.declFun("runesPrefix", []string{sString, sInt}, sInt)
+	return "(runesPrefix " + s + " " + p + ")"
+}
+
 func (vc *FnVC) doRange(x *ssa.Range, st *State) {
 	mt, ok := x.X.Type().Underlying().(*types.Map)
 	if !ok {
-		panic(unsupported("range over string"))
+		// range over a string: the iterator is a byte position
+		s := vc.term(x.X).S
+		c := vc.posCompFor(x)
+		vc.setComp(st, c, "0")
+		vc.emit(eq(vc.runePrefix(s, "0"), "0"))
+		vc.vals[x] = Val{k: vTerm, tv: TV{S: s, Sort: sString, Ty: x.X.Type()}}
+		return
 	}
 	vc.lockObligation(x.X, false, st)
 	ks := vc.enc.sortOf(mt.Key())
@@ -1103,8 +1130,31 @@ func (vc *FnVC) doRange(x *ssa.Range, st *State) {
 
 func (vc *FnVC) doNext(x *ssa.Next, st *State) {
 	rg, ok := x.Iter.(*ssa.Range)
-	if !ok || x.IsString {
-		panic(unsupported("next on string iterator"))
+	if !ok {
+		panic(unsupported("next on unknown iterator"))
+	}
+	if x.IsString {
+		// Go spec, "For statements with range clause": successive UTF-8 encoded code points;
+		// invalid UTF-8 yields U+FFFD (so a surrogate is never produced) and advances one byte.
+		s := vc.term(rg.X).S
+		c := vc.posCompFor(rg)
+		pos := vc.cur(st, c)
+		okN := vc.enc.freshConst("ok$"+sanitize(x.Name()), sBool)
+		rN := vc.enc.freshConst("rune$"+sanitize(x.Name()), sInt)
+		wN := vc.enc.freshConst("width$"+sanitize(x.Name()), sInt)
+		vc.emit(eq(okN, "(< "+pos+" (str.len "+s+"))"))
+		vc.assume(implies(okN, and("(<= 1 "+wN+")", "(<= "+wN+" 4)", "(<= (+ "+pos+" "+wN+") (str.len "+s+"))",
+			"(<= 0 "+rN+")", "(<= "+rN+" 1114111)", not(and("(<= 55296 "+rN+")", "(< "+rN+" 57344)")),
+			eq(vc.runePrefix(s, "(+ "+pos+" "+wN+")"), "(+ "+vc.runePrefix(s, pos)+" 1)"))))
+		kN := vc.enc.freshConst("k$"+sanitize(x.Name()), sInt)
+		vc.emit(eq(kN, pos))
+		vc.setComp(st, c, ite(okN, "(+ "+pos+" "+wN+")", pos))
+		vc.vals[x] = Val{k: vTuple, tup: []Val{
+			{k: vTerm, tv: TV{S: okN, Sort: sBool, Ty: types.Typ[types.Bool]}},
+			{k: vTerm, tv: TV{S: kN, Sort: sInt, Ty: types.Typ[types.Int]}},
+			{k: vTerm, tv: TV{S: rN, Sort: sInt, Ty: types.Typ[types.Rune]}},
+		}}
+		return
 	}
 	mt := rg.X.Type().Underlying().(*types.Map)
 	c := vc.seenCompFor(rg)
